@@ -387,6 +387,86 @@ Section SignProofs.
       destruct (Z.ltb_spec now e); [reflexivity|lia].
   Qed.
 
+  (** ** Refresh advice and signed challenges *)
+
+  Lemma need_refresh_spec maxttl left :
+    (0 < maxttl)%Z -> need_refresh maxttl left = true <-> (left < maxttl / 5)%Z.
+  Proof.
+    intros H. unfold need_refresh, refresh_ttl.
+    destruct (Z.leb_spec maxttl 0); [lia|]. apply Z.ltb_lt.
+  Qed.
+
+  Lemma need_refresh_never maxttl left : (maxttl <= 0)%Z -> (0 <= left)%Z -> need_refresh maxttl left = false.
+  Proof.
+    intros H L. unfold need_refresh, refresh_ttl. destruct (Z.leb_spec maxttl 0); [|lia].
+    destruct (Z.ltb_spec left 0); [lia|reflexivity].
+  Qed.
+
+  (** A session checked [now] is advised to refresh iff less than a fifth of
+      the configured lifetime remains. *)
+  Theorem session_refresh_advice k maxttl t0 ttl d now :
+    is_bytes d -> is_int64 (t0 + eff_ttl maxttl ttl) -> (0 < maxttl <= max_dur)%Z ->
+    (t0 <= now < t0 + eff_ttl maxttl ttl)%Z ->
+    exists left,
+      sess_check k now (fst (sess_new k maxttl t0 ttl d)) = Some (d, left) /\
+      left = (t0 + eff_ttl maxttl ttl - now)%Z /\
+      (need_refresh maxttl left = true <-> (t0 + eff_ttl maxttl ttl - now < maxttl / 5)%Z).
+  Proof.
+    intros Hd He Hm Hn. pose proof (session_window k maxttl t0 ttl d now Hd He) as W.
+    unfold Sign.sess_new in *. cbn [fst]. destruct W as [_ W].
+    destruct (Z.ltb_spec now (t0 + eff_ttl maxttl ttl)) as [_|]; [|lia].
+    pose proof (eff_ttl_capped maxttl ttl) as C.
+    assert (clamp_dur (t0 + eff_ttl maxttl ttl - now) = t0 + eff_ttl maxttl ttl - now)%Z as CL.
+    { unfold clamp_dur, min_dur, max_dur. unfold is_int64, two63 in He.
+      destruct (Z.ltb_spec (t0 + eff_ttl maxttl ttl - now) (-9223372036854775808)); [lia|].
+      destruct (Z.ltb_spec 9223372036854775807 (t0 + eff_ttl maxttl ttl - now)); [|reflexivity].
+      exfalso. assert (is_int64 (t0 + eff_ttl maxttl ttl)) as X by exact He. unfold is_int64, two63 in X.
+      unfold max_dur in Hm. lia. }
+    eexists. split; [exact W|]. split; [exact CL|]. rewrite CL. apply need_refresh_spec. lia.
+  Qed.
+
+  Section Challenge.
+    Variable chal_time : bytes -> option Z.
+
+    Definition chal_instant (d : bytes) : Z :=
+      match chal_time d with Some t => t | None => zero_time_ns end.
+
+    (** A challenge verifies iff it is the signed blob of its data and the
+        instant in the data is at most [w] in the past (closed window). *)
+    Theorem challenge_check_iff k w now bs :
+      challenge_check mac chal_time k w now bs = None <->
+      exists d, bs = sign k d /\ (chal_instant d <= now <= chal_instant d + w)%Z.
+    Proof.
+      unfold challenge_check, chal_instant. split.
+      - destruct (check k bs) as [d|] eqn:C; [|discriminate].
+        apply check_sound in C. intros H. exists d. split; [exact C|].
+        set (t := match chal_time d with Some t => t | None => zero_time_ns end) in *.
+        destruct (Z.ltb_spec now t); [discriminate|]. destruct (Z.ltb_spec (t + w) now); [discriminate|]. lia.
+      - intros (d & -> & H). rewrite check_sign.
+        set (t := match chal_time d with Some t => t | None => zero_time_ns end) in *.
+        destruct (Z.ltb_spec now t); [lia|]. destruct (Z.ltb_spec (t + w) now); [lia|reflexivity].
+    Qed.
+
+    Corollary challenge_only_issued k w now issued bs :
+      no_forgery k issued bs -> challenge_check mac chal_time k w now bs = None ->
+      exists d, In d issued /\ bs = sign k d /\ (chal_instant d <= now <= chal_instant d + w)%Z.
+    Proof.
+      intros F C. apply challenge_check_iff in C. destruct C as (d & -> & W).
+      exists d. split; [apply (F d); reflexivity|auto].
+    Qed.
+
+    (** Data without a timestamp reads as year 1: never accepted at an [int64]
+        nanosecond instant with an [int64] window. *)
+    Corollary challenge_without_time_rejected k w now d :
+      chal_time d = None -> is_int64 now -> is_int64 w ->
+      challenge_check mac chal_time k w now (sign k d) <> None.
+    Proof.
+      intros T Hn Hw C. apply challenge_check_iff in C. destruct C as (d' & E & W).
+      apply (f_equal (check k)) in E. rewrite !check_sign in E. injection E as <-.
+      unfold chal_instant in W. rewrite T in W. unfold zero_time_ns, is_int64, two63 in *. lia.
+    Qed.
+  End Challenge.
+
   (** ** Time tokens *)
 
   Notation ts_token := (ts_token mac).
